@@ -66,7 +66,18 @@ MatrixHist(r) ==
                  [op |-> "reply", id |-> 7, qd |-> <<[name |-> names[ni], qtype |-> qt, qclass |-> qc, unicast |-> FALSE]>>] IN
   <<[op |-> "add_auth", rec |-> r]>> \o [k \in 1 .. (2 * 3 * Len(qts)) |-> cell(k)]
 
-Init == IF Mode = "matrix" THEN \E r \in Catalogue : hist = MatrixHist(r) /\ n = 0 /\ done = TRUE
+\* ... and twins: the same name and RDATA registered in two classes (IN then CH, CH then IN), asked about with the
+\* same matrix -- records are told apart by class as well
+TwinCat == {r \in Catalogue : r.class = 1 /\ (r.type \in {33, 16, 12}
+                                               \/ (r.type = 1 /\ r.rd = <<<<10, 0, 0, 1>>>> /\ r.name \in {<<Mysrv, Local>>, <<Foobar>>, <<A1, Mysrv, Local>>}))}
+TwinHist(r, o) ==
+  LET a == [op |-> "add_auth", rec |-> r]
+      b == [op |-> "add_auth", rec |-> [r EXCEPT !.class = 3]] IN
+  (IF o = 1 THEN <<a, b>> ELSE <<b, a>>) \o Tail(MatrixHist(r))
+
+Init == IF Mode = "matrix" THEN /\ \/ \E r \in Catalogue : hist = MatrixHist(r)
+                                   \/ \E r \in TwinCat, o \in {1, 2} : hist = TwinHist(r, o)
+                                /\ n = 0 /\ done = TRUE
         ELSE hist = <<>> /\ n = 0 /\ done = FALSE
 
 TtlBytes(t) == <<0, 0, (t \div 256) % 256, t % 256>>
